@@ -7,6 +7,7 @@
 #include <qpdf/MD5.hh>
 #include <qpdf/Pipeline.hh>
 #include <qpdf/Pl_AES_PDF.hh>
+#include <qpdf/Pl_RC4.hh>
 #include <qpdf/Pl_SHA2.hh>
 #include <qpdf/QPDF.hh>
 #include <qpdf/QPDFWriter.hh>
@@ -92,6 +93,16 @@ static Reg r_aespl("aespl", [](std::vector<std::string> const& a) -> std::string
     } catch (std::exception const& e) {
         return "!exception";
     }
+    return hex(sink.out);
+});
+
+// rc4pl <key> <chunks> : Pl_RC4 fed with exactly these write() calls
+static Reg r_rc4pl("rc4pl", [](std::vector<std::string> const& a) -> std::string {
+    std::string key = unhex(a.at(0));
+    CSink sink;
+    Pl_RC4 p("rc4", &sink, key);
+    for (auto const& c: cchunks(a.at(1))) p.write(reinterpret_cast<unsigned char const*>(c.data()), c.size());
+    p.finish();
     return hex(sink.out);
 });
 
